@@ -22,8 +22,9 @@ def run(F, rep):
     if not pos:
         raise AnalysisBroken('traverseHierarchyAndRemoveIfEmpty has no return that can be true')
     for k_, r in enumerate(pos, 1):
-        called = {c.get('fn') for c in walk(r) if c.get('k') == 'Call'}
-        for c_ in list(walk(r)):
+        from engines import walk_x as _wx19
+        called = {c.get('fn') for c in _wx19(th, r) if c.get('k') == 'Call'}
+        for c_ in list(_wx19(th, r)):
             if c_.get('k') == 'Call' and not c_.get('opc'):
                 pb_ = predicate_body(F, c_)
                 if pb_ is not None:
